@@ -61,12 +61,10 @@ def run(ctx):
     ctx.floor("R1", 14)
 
     # R2 grouping / order independence
+    from .common import attr_reads_through
     f = ctx.src.func("nsf.neutron_scattering")
-    reads = set()
-    for node in ast.walk(f.node):
-        if isinstance(node, ast.Attribute) and isinstance(node.value, ast.Name) and node.value.id == "compound" \
-                and isinstance(node.ctx, ast.Load):
-            reads.add(node.attr)
+    first = (f.node.args.posonlyargs + f.node.args.args)[0].arg
+    reads = attr_reads_through(ctx, "nsf.neutron_scattering", first)
     ctx.check(reads <= {"atoms", "density"} and "atoms" in reads, "R2",
               "the calculation reads the compound only through .atoms and .density",
               f"neutron_scattering also reads {sorted(reads - {'atoms', 'density'})} of the compound "
